@@ -282,6 +282,20 @@ var fnSpecs = []groupSpec{
 		Skip: []string{"r, err := res.r, res.err"},
 		Doc:  "; the body of `case res := <-resChan` in the collection loop: `failed` = the helper reported an error (or unparsable bytes), `rcode` = the reply's rcode; true = the call returns this reply now, false = `continue`",
 	}},
+	// ---------------------------------------------------------------- C13: what Sort's merge loop does with one prefix
+	{Group: "Netlist", fnSpec: fnSpec{
+		File: "pkg/matcher/netlist/list.go", Func: "Sort", Recv: "List", LoopBody: true, Result: "(0 : Int)",
+		Lean: "sortMergeDecision", Params: "(i : Int) (sameAddr shorter covered : Bool)", Ret: "Int",
+		Vars: map[string]ty{"i": tInt},
+		Expr: map[string]lx{
+			"n.Addr() == lv.Addr()":  b("sameAddr"),
+			"n.Bits() < lv.Bits()":   b("shorter"),
+			"!lv.Contains(n.Addr())": b("(!covered)"),
+		},
+		Stmt: map[string]string{"out = append(out, n)": "return (1 : Int)", "*lv = n": "return (2 : Int)"},
+		Skip: []string{"lv := &out[len(out)-1]"},
+		Doc:  "; the body of the merge loop of `Sort` as a decision: `lv` = the last prefix kept so far, `sameAddr` = n.Addr() == lv.Addr(), `shorter` = n.Bits() < lv.Bits(), `covered` = lv.Contains(n.Addr()); result 1 = append n, 2 = replace lv by n, 0 = drop n",
+	}},
 	// ---------------------------------------------------------------- C13: the binary search of List.Contains
 	{Group: "Netlist", fnSpec: fnSpec{
 		File: "pkg/matcher/netlist/list.go", Func: "Contains", Recv: "List", Fuel: "fuel",
@@ -341,5 +355,34 @@ var fnSpecs = []groupSpec{
 		},
 		Skip: []string{"if err != nil { return netip.Prefix{}, err }"},
 		Doc:  "; result = the prefix (address, length) LoadFromIPs hands to l.Append, none = error; `addr.BitLen()` is 128 for the 16-byte form (IPv4-mapped included) and 32 for the 4-byte form, and `addr.Prefix(addr.BitLen())` masks nothing",
+	}},
+	// ---------------------------------------------------------------- C08: one turn of the two retry loops
+	{Group: "Retry", fnSpec: fnSpec{
+		File: "pkg/upstream/transport/reuse.go", Func: "ExchangeContext", Recv: "ReuseConnTransport", LoopBody: true, Result: "(none, retry)",
+		Lean: "reuseExchangeTurn", Params: "(maxRetry retry : Int) (closed noIdle dialFails tooLarge exchangeFails : Bool)", Ret: "Option Nat × Int",
+		Vars: map[string]ty{"maxRetry": tInt, "retry": tInt},
+		Expr: map[string]lx{"c == nil": b("noIdle"), "err != nil": b("(err != 0)")},
+		Stmt: map[string]string{
+			"c, err := t.getIdleConn()":                  "let err : Nat := if closed then 1 else 0",
+			"c, err = t.getNewConn(ctx)":                 "let err : Nat := if dialFails then 2 else 0",
+			"queryPayload, err := copyMsgWithLenHdr(m)":  "let err : Nat := if tooLarge then 3 else 0",
+			"resp, err := c.exchange(ctx, queryPayload)": "let err : Nat := if exchangeFails then 4 else 0",
+			"return nil, err":                            "return (some err, retry)",
+			"return resp, nil":                           "return (some 0, retry)",
+		},
+		Doc: "; the body of the retry loop: the environment of one turn is `closed` (getIdleConn fails), `noIdle` (getIdleConn returned nil), `dialFails`, `tooLarge`, `exchangeFails`; `err` is the number of the call that failed (1 getIdleConn, 2 getNewConn, 3 copyMsgWithLenHdr, 4 exchange); result = (some 0, _) reply returned, (some e, _) error of call e returned, (none, retry') = `continue`; `maxRetry` is the const declared in front of the loop (T2 fact c08ReuseMaxRetry)",
+	}},
+	{Group: "Retry", fnSpec: fnSpec{
+		File: "pkg/upstream/transport/pipeline.go", Func: "ExchangeContext", Recv: "PipelineTransport", LoopBody: true, Result: "(none, retry)",
+		Lean: "pipelineExchangeTurn", Params: "(maxRetry retry : Int) (reserveErr : Nat) (isNewConn exchangeFails ctxEnded : Bool)", Ret: "Option Nat × Int",
+		Vars: map[string]ty{"maxRetry": tInt, "retry": tInt, "isNewConn": tBool},
+		Expr: map[string]lx{"err != nil": b("(err != 0)"), "ctx.Err() == nil": b("(!ctxEnded)")},
+		Stmt: map[string]string{
+			"dc, isNewConn, err := t.getReservedExchanger()": "let err : Nat := reserveErr",
+			"r, err := dc.ExchangeReserved(ctx, m)":          "let err : Nat := if exchangeFails then 4 else 0",
+			"return nil, err":                                "return (some err, retry)",
+			"return r, nil":                                  "return (some 0, retry)",
+		},
+		Doc: "; the body of the retry loop: `reserveErr` = the error of getReservedExchanger (0 none), `isNewConn` = its second result (where it is set: T2 fact c08PipelineNewConnFlag), `exchangeFails`, `ctxEnded` = `ctx.Err() != nil` when the exchange has failed; result as for reuseExchangeTurn",
 	}},
 }
